@@ -11,12 +11,14 @@ What is modelled, branch by branch:
 * `call_*_with_retry` (4 loops)   → `run` (fuel = `max_attempts`; `LoopForm` = extracted shape of the loop)
 * `invalidate_client`             → cache := `none`
 * error kinds of `client.rs` / `async_client.rs`  → `attempt` (what one attempt yields for each node
-                                     behaviour) and `deadClientError` (write on a shut-down socket)
+                                     behaviour) and `deadClientError` (what a call on a client whose
+                                     response loop has failed yields: `Policy.deadKind`, a fact per fleet)
 * `snapshot_target_nodes` + fan-out in `broadcast_json` → `targets`, `broadcast`
 
 A behaviour is consumed when the client *contacts* the node (a connect, or a request on the cached
-connection).  An attempt on a dead cached client fails in `write_request` (`EPIPE`) without reaching
-the node and consumes nothing.  An exhausted behaviour list means the node is healthy (`success`).
+connection).  An attempt on a dead cached client fails before anything is sent (blocking client:
+`EPIPE` in `write_request`; async client: the registration is refused) without reaching the node and
+consumes nothing.  An exhausted behaviour list means the node is healthy (`success`).
 -/
 namespace Repe.Fleet
 
@@ -63,6 +65,11 @@ structure Policy where
   retryKinds : List IoKind
   serverRetry : Bool := false   -- `RepeError::ServerError { .. } => false`
   otherRetry : Bool := false    -- `_ => false`
+  /-- What a call on a *dead* cached client of this fleet fails with (a fact about the client, kept
+  here because it is per fleet): blocking `Client` writes on the socket its response loop shut down
+  (`EPIPE` → `BrokenPipe`); `AsyncClient` refuses to register the request once its response loop has
+  marked the connection failed (`connection_failed_error` → `NotConnected`). -/
+  deadKind : IoKind := .brokenPipe
   deriving DecidableEq, Repr
 
 def Policy.retryable (P : Policy) : ErrClass → Bool
@@ -79,9 +86,8 @@ structure LoopForm where
 
 def LoopForm.canonical : LoopForm := {}
 
-/-- `write_request` on a client whose socket was shut down (`shutdown(Both)` / `shutdown(Write)`):
-Linux reports `EPIPE`. -/
-def deadClientError : ErrClass := .io .brokenPipe
+/-- The error of an attempt on a dead cached client: it never reaches the node. -/
+def deadClientError (P : Policy) : ErrClass := .io P.deadKind
 
 /-- One attempt that reaches the node, cache `none` (connect first) or `live` (reuse). -/
 def attempt : Cache → Behaviour → Reply × Cache
@@ -106,9 +112,9 @@ structure Step where
   rest : List Behaviour
 
 /-- One pass through the closure `ensure_connected(..)?; client.call_…_with_timeout(..)`. -/
-def step (c : Cache) (bs : List Behaviour) : Step :=
+def step (P : Policy) (c : Cache) (bs : List Behaviour) : Step :=
   match c with
-  | .dead => ⟨⟨none, .err deadClientError⟩, .dead, bs⟩
+  | .dead => ⟨⟨none, .err (deadClientError P)⟩, .dead, bs⟩
   | c =>
     match bs with
     | [] => ⟨⟨some .success, .ok⟩, .live, []⟩
@@ -124,7 +130,7 @@ structure Run where
 def run (P : Policy) (lf : LoopForm) : Nat → Cache → List Behaviour → Run
   | 0, c, bs => ⟨[], c, bs⟩
   | n+1, c, bs =>
-    let s := step c bs
+    let s := step P c bs
     match s.entry.reply with
     | .ok => ⟨[s.entry], s.cache, s.rest⟩
     | .err e =>
@@ -197,33 +203,47 @@ structure CallObs where
 
 def obsOf (r : Run) : CallObs := ⟨r.contacts, r.result, r.cache.connected⟩
 
+/-- One call of a correspondence case. The error kind of an attempt on a dead cached client is taken
+from what the harness observed (`kinds`, one entry per call that never reached the node, in order):
+the implementation may yield any member of an admissible set, the model does not predict which.
+The entry is consumed iff this call is such a call. -/
+def callObs (P : Policy) (lf : LoopForm) (max : Nat) (kinds : List IoKind) (c : Cache)
+    (bs : List Behaviour) : Run × List IoKind :=
+  let P' : Policy := match kinds with
+    | k :: _ => { P with deadKind := k }
+    | [] => P
+  let r := call P' lf max c bs
+  if r.contacts = 0 ∧ 0 < r.attempts then (r, kinds.drop 1) else (r, kinds)
+
 /-- Calls while the script is not exhausted, at most `k` of them. -/
-def scriptPhase (P : Policy) (lf : LoopForm) (max : Nat) : Nat → Cache → List Behaviour → List CallObs × Cache
-  | 0, c, _ => ([], c)
-  | k+1, c, bs =>
-    if bs.isEmpty then ([], c)
+def scriptPhase (P : Policy) (lf : LoopForm) (max : Nat) :
+    Nat → List IoKind → Cache → List Behaviour → List CallObs × Cache × List IoKind
+  | 0, ks, c, _ => ([], c, ks)
+  | k+1, ks, c, bs =>
+    if bs.isEmpty then ([], c, ks)
     else
-      let r := call P lf max c bs
-      let (os, c') := scriptPhase P lf max k r.cache r.rest
-      (obsOf r :: os, c')
+      let (r, ks') := callObs P lf max ks c bs
+      let (os, c', ks'') := scriptPhase P lf max k ks' r.cache r.rest
+      (obsOf r :: os, c', ks'')
 
 /-- Healthy node: calls until the first success, at most `k`. Returns the observations and the
 number of the first successful call. -/
-def healthyPhase (P : Policy) (lf : LoopForm) (max : Nat) : Nat → Nat → Cache → List CallObs × Option Nat
-  | 0, _, _ => ([], none)
-  | k+1, i, c =>
-    let r := call P lf max c []
+def healthyPhase (P : Policy) (lf : LoopForm) (max : Nat) :
+    Nat → Nat → List IoKind → Cache → List CallObs × Option Nat
+  | 0, _, _, _ => ([], none)
+  | k+1, i, ks, c =>
+    let (r, ks') := callObs P lf max ks c []
     if r.result = some .ok then ([obsOf r], some (i + 1))
     else
-      let (os, n) := healthyPhase P lf max k (i + 1) r.cache
+      let (os, n) := healthyPhase P lf max k (i + 1) ks' r.cache
       (obsOf r :: os, n)
 
 def healthyCalls : Nat := 3
 
-def runCase (P : Policy) (lf : LoopForm) (max : Nat) (bs : List Behaviour) :
+def runCase (P : Policy) (lf : LoopForm) (max : Nat) (kinds : List IoKind) (bs : List Behaviour) :
     List CallObs × List CallObs × Option Nat :=
-  let (os, c) := scriptPhase P lf max (2 * bs.length + 1) .none bs
-  let (hs, n) := healthyPhase P lf max healthyCalls 0 c
+  let (os, c, ks) := scriptPhase P lf max (2 * bs.length + 1) kinds .none bs
+  let (hs, n) := healthyPhase P lf max healthyCalls 0 ks c
   (os, hs, n)
 
 end Repe.Fleet
